@@ -275,7 +275,7 @@ func (g *genState) op(maxData int) Op {
 
 func gen(t *rapid.T) Case {
 	c := Case{}
-	c.MaxLinks = rapid.SampledFrom([]int{0, 2, 2, 2, 3, 3, 4}).Draw(t, "maxlinks")
+	c.MaxLinks = rapid.SampledFrom([]int{0, 0, 0, 2, 2, 2, 3, 4}).Draw(t, "maxlinks")
 	c.ShardSize = rapid.SampledFrom([]int{0, 100, 100, 180, 300}).Draw(t, "shardsize")
 	c.Fanout = rapid.SampledFrom([]int{0, 8, 8, 16}).Draw(t, "fanout")
 	c.SizeMode = rapid.SampledFrom([]int{-1, 0, 1, 2}).Draw(t, "sizemode")
@@ -767,8 +767,9 @@ type outcome struct {
 	checked bool // pure comparison op without success/failure expectation
 	f9      bool // matches the signature of known finding F9
 	target  *mnode
-	off     int    // effective write offset / truncate size
-	data    []byte // effective write data
+	mvOver  []string // mv: path of the existing file the move must replace (nil if none)
+	off     int      // effective write offset / truncate size
+	data    []byte   // effective write data
 	classes []string
 }
 
@@ -823,7 +824,7 @@ func (model *mnode) apply(op Op, chunk int, cidV1 bool) (o outcome) {
 		if !o.want {
 			return
 		}
-		mn := &mnode{data: append([]byte(nil), op.Data...)}
+		mn := &mnode{data: append([]byte(nil), op.Data...), mayRaw: cidV1}
 		switch op.Node {
 		case "raw":
 			mn.mayRaw = true
@@ -835,7 +836,7 @@ func (model *mnode) apply(op Op, chunk int, cidV1 bool) (o outcome) {
 			mn.setTime(op.Sec, op.Nsec)
 		case "dir":
 			mn = newDir()
-			mn.kids["g"] = &mnode{data: append([]byte(nil), op.Data...), inline: len(op.Data) > 0}
+			mn.kids["g"] = &mnode{data: append([]byte(nil), op.Data...), inline: len(op.Data) > 0, mayRaw: cidV1}
 		}
 		parent.kids[name] = mn
 		cls("put:" + op.Node)
@@ -959,6 +960,7 @@ func (model *mnode) apply(op Op, chunk int, cidV1 bool) (o outcome) {
 			dstParent.kids[dstName] = src
 			if overwrite {
 				cls("mv:overwrite")
+				o.mvOver = effDst
 			}
 			if src.dir {
 				cls("mv:dir")
@@ -1054,9 +1056,13 @@ const f9 = "F9"
 // undercounts its entries and fails an overwriting AddChild with 'maxLinks reached'".
 const hamtReload = "HAMT-RELOAD"
 
+// hamtReloadMv marks the second face of the same defect: Mv swallows the failing Unlink.
+const hamtReloadMv = "[Mv swallowed the failure of removing the replaced file]"
+
 func run(c Case) kit.Result {
 	res := runCase(c)
-	if res.Err != nil && c.MaxLinks > 0 && strings.Contains(res.Err.Error(), "BasicDirectory: cannot add child: maxLinks reached") {
+	if res.Err != nil && c.MaxLinks > 0 && (strings.Contains(res.Err.Error(), "BasicDirectory: cannot add child: maxLinks reached") ||
+		strings.Contains(res.Err.Error(), hamtReloadMv)) {
 		res.Known = hamtReload
 	}
 	return res
@@ -1196,6 +1202,22 @@ func runCase(c Case) kit.Result {
 				classes["mv:equal-named-parents"] = true
 			}
 			err = mfs.Mv(s.root, op.Path, op.Dst)
+			if err != nil && o.want && o.mvOver != nil && c.MaxLinks > 0 && errors.Is(err, mfs.ErrDirExists) {
+				// Mv ignores the error of the Unlink that removes the file it replaces and then
+				// fails with ErrDirExists. With MaxLinks set and a HAMT-sharded destination
+				// directory that swallowed error is the known HAMT-RELOAD defect ("maxLinks
+				// reached" while converting back to a basic directory); the failed attempt
+				// changes the directory's bookkeeping, so it cannot be re-observed afterwards.
+				if pn, lerr := mfs.Lookup(s.root, "/"+strings.Join(o.mvOver[:len(o.mvOver)-1], "/")); lerr == nil {
+					if pd, ok := pn.(*mfs.Directory); ok {
+						if dn, gerr := pd.GetNode(); gerr == nil {
+							if fsn, xerr := ft.ExtractFSNode(dn); xerr == nil && fsn.Type() == ft.THAMTShard {
+								return kit.Fail("%s: failed with %q; the destination directory is a HAMT shard under MaxLinks=%d %s", when, err, c.MaxLinks, hamtReloadMv)
+							}
+						}
+					}
+				}
+			}
 
 		case "rm":
 			var pn mfs.FSNode
